@@ -96,7 +96,8 @@ def build(v):
             if kind == 'allchildren' or ch['member'] == v['which']:
                 n = v['n'] if kind == 'child' else 1
                 ccls = get_class(ch['cls'])
-                setattr(inst, ch['member'], [ccls() for _ in range(n)] if ch['list'] else ccls())
+                # (several instances are handed over as a list also where the class holds the child in a single slot)
+                setattr(inst, ch['member'], [ccls() for _ in range(n)] if (ch['list'] or n > 1) else ccls())
     if kind == 'foreign_child':
         inst.extension_elements.append(ExtensionElement('foreign', namespace=FOREIGN_NS, text='kept',
                                                         attributes={'a': 'b'}))
@@ -206,7 +207,7 @@ def main():
     # design level: what TLC says about the tables
     bad_tables = sorted(set(c['v']['cls'] for c in res.cases if not c['wellFormed'] or not c['roundTrips']))
     for cid in bad_tables:
-        chk.note('table of %s does not round-trip in the abstract model (c_children key / c_child_order)' % cid)
+        chk.note('table of %s does not round-trip in the abstract model (c_children key / c_child_order / list-valued children)' % cid)
     if tab.violated and not bad_tables:
         raise fw.Machinery('table invariants violated but no variant blames a class')
     # serialisation may depend on what the process has serialised before (class-level caches, registered
